@@ -10,6 +10,7 @@ Oracle    : at the end of every iteration, after finalise and after a resume,
 """
 from .. import configs, runcheck
 
+USES_KNOWN_CASES = True
 LEVEL = "exploration"
 RULE = (
     "Real ImportanceNestedSampler runs through FlowSampler; options drawn by "
